@@ -160,7 +160,13 @@ func c16HandlerFrom(lookup func(lorawan.EUI64) (C16Case, bool), store map[string
 			if !ok {
 				return joinserver.DeviceKeys{}, joinserver.ErrDevEUINotFound
 			}
-			return joinserver.DeviceKeys{DevEUI: devEUI, NwkKey: keyOf(c.NwkKey), AppKey: keyOf(c.AppKey), JoinNonce: c.JoinNonce}, nil
+			dk := joinserver.DeviceKeys{DevEUI: devEUI, NwkKey: keyOf(c.NwkKey), AppKey: keyOf(c.AppKey), JoinNonce: c.JoinNonce}
+			if c.JoinNonce%2 == 1 {
+				// a key store whose records do not repeat their own key (a map[EUI64]DeviceKeys): the
+				// request says which device it is
+				dk.DevEUI = lorawan.EUI64{}
+			}
+			return dk, nil
 		},
 		GetKEKByLabelFunc: func(label string) ([]byte, error) {
 			y("GetKEK")
